@@ -153,7 +153,8 @@ impl<'a, 'b, 'c> super::ResponseParser for ResponseParser<'a, 'b, 'c> {
 macro_rules! array_of {
     ($zreader:ident, $parse_elem:expr) => {{
         let n_elems = $zreader.read_array_len()?;
-        let mut array = Vec::with_capacity(n_elems);
+        // ~ don't trust the count on the wire for the pre-allocation
+        let mut array = Vec::with_capacity(std::cmp::min(n_elems, 1024));
         for _ in 0..n_elems {
             array.push($parse_elem?);
         }
